@@ -9,6 +9,7 @@ import warnings
 from typing import Union, Optional
 import numpy as np
 from math import inf, ceil
+from fractions import Fraction
 import partitura.score as spt
 from partitura.utils import PathLike, get_document_name, symbolic_to_numeric_duration
 
@@ -382,13 +383,26 @@ def load_kern(
         # Calculate unique durations and ensure they are integers
         unique_durs = np.unique(parser.total_duration_values)
         unique_durs = unique_durs[np.isfinite(unique_durs)]
+        reciprocal_values = unique_durs.copy()
         d_mul = 2
-        while not np.all(np.isclose(unique_durs % 1, 0.0)):
+        while not np.all(np.isclose(unique_durs % 1, 0.0)) and d_mul <= 3:
             unique_durs *= d_mul
             d_mul += 1
-        unique_durs = unique_durs.astype(int)
-        divs_pq = np.lcm.reduce(unique_durs)
-        divs_pq = max(divs_pq, 4)
+        if np.all(np.isclose(unique_durs % 1, 0.0)):
+            divs_pq = np.lcm.reduce(np.round(unique_durs).astype(int))
+        else:
+            # values that need more than halves and thirds (double dots,
+            # 32%17, ...): a reciprocal value r lasts 4/r quarters, the
+            # divisions are the common denominator of these lengths
+            # (scaling by 2 * 3 * 4 * ... overflows)
+            divs_pq = np.lcm.reduce(
+                [
+                    (4 / Fraction(float(dur)).limit_denominator(10**6)).denominator
+                    for dur in reciprocal_values
+                    if dur > 0
+                ]
+            )
+        divs_pq = np.lcm(divs_pq, 4)
 
         if same_part:
             divs_pq = np.lcm.reduce([divs_pq, part._quarter_durations[0]])
